@@ -402,6 +402,25 @@ fn main() {
           }
         });
       }
+      "req_timeout_then_send" => {
+        // public API: REQ (RCVTIMEO 100 ms) <-> REP over inproc; the REP never answers: send, recv (times out), send again
+        let rt = tokio::runtime::Builder::new_multi_thread().worker_threads(2).enable_all().build().unwrap();
+        let (r1, r2, r3) = rt.block_on(async move {
+          let ctx = rzmq::Context::new().unwrap();
+          let rep = ctx.socket(rzmq::SocketType::Rep).unwrap();
+          let req = ctx.socket(rzmq::SocketType::Req).unwrap();
+          req.set_option(rzmq::socket::options::RCVTIMEO, 100i32).await.unwrap();
+          rep.bind("inproc://verif-req-timeout").await.unwrap();
+          req.connect("inproc://verif-req-timeout").await.unwrap();
+          tokio::time::sleep(Duration::from_millis(150)).await;
+          let r1 = req.send(rzmq::Msg::from_vec(b"one".to_vec())).await;
+          let r2 = req.recv().await.map(|_| ());
+          let r3 = req.send(rzmq::Msg::from_vec(b"two".to_vec())).await;
+          (format!("{:?}", r1), format!("{:?}", r2), format!("{:?}", r3))
+        });
+        println!("req_timeout_then_send send1={} recv={} send2={}{}", r1, r2, r3, if r3.starts_with("Ok") { " SECOND SEND ACCEPTED without a reply in between" } else { "" });
+        std::process::exit(0);
+      }
       "rep_recv_race" => {
         // schedule from the solver: both callers read ReadyToReceive before either stores ReceivedRequest.
         // Public API: a REP socket with two REQ clients that each sent a request; two tasks call recv(); the schedule
